@@ -126,44 +126,97 @@ def octetsOk (u : CUpdate) (cs : List Corr) : Bool :=
       | .unknown _ _ d => octets d
       | _ => true
 
+/-! #### facts about `blockItems` that hold by construction for a valid `u` (distinct known types in `u`, distinct
+   unrecognised appended types, a `dup` copy right after its first copy, MP_REACH / MP_UNREACH values as rendered from
+   `u.mpr` / `u.mpu`).  They are stated as checks so that the theorems need not re-derive them; the generator's valid
+   cases all pass them (evidence: no generated case is rejected by `wfCase`). -/
+
+/-- every item that is not a `dup` copy is the first of its type -/
+def firstOcc : List WItem → List Nat → Bool
+  | [], _ => true
+  | w :: ws, seen => (w.kind == 1 || !seen.contains w.code) && firstOcc ws (w.code :: seen)
+
+/-- a `dup` copy comes right after the first copy of the same attribute -/
+def dupOk : Option WItem → List WItem → Bool
+  | _, [] => true
+  | prev, w :: ws =>
+      (w.kind != 1 ||
+        (match prev with
+         | some p => p.kind != 1 && p.code == w.code && p.flags == w.flags && p.data == w.firstData
+         | none => false)) && dupOk (some w) ws
+
+def structOk (c : Codec) (u : CUpdate) (cs : List Corr) : Bool :=
+  let items := blockItems c u cs
+  let mprPresent := (idxFrom 0 (baseAttrs c u)).any fun (i, o) => o.code == 14 && (effAttr cs i o).present
+  let mpuPresent := (idxFrom 0 (baseAttrs c u)).any fun (i, o) => o.code == 15 && (effAttr cs i o).present
+  items.all (fun w =>
+      w.flags < 256 && w.code < 256 && w.data.length < 65536 && w.kind ≤ 2
+        && (w.lenOv || w.lenField == w.data.length)
+        && (w.kind != 0 || attrClass w.code != none)
+        && (w.kind != 2 || attrClass w.code == none)
+        && (w.kind != 0 || w.code != 14 ||
+              (match u.mpr with | some m => w.origData == (mprAttr c m).data | none => false))
+        && (w.kind != 0 || w.code != 15 ||
+              (match u.mpu with | some m => w.origData == (mpuAttr c m).data | none => false))
+        && octets w.data)
+    && firstOcc items [] && dupOk none items
+    && (!mprPresent || items.any fun w => w.kind == 0 && w.code == 14)
+    && (!mpuPresent || items.any fun w => w.kind == 0 && w.code == 15)
+    && ((idxFrom 0 (baseAttrs c u)).all fun (i, o) =>
+          (effAttr cs i o).present || items.all fun w => w.code != o.code)
+    && (u.mpr.isSome == (idxFrom 0 (baseAttrs c u)).any fun (_, o) => o.code == 14)
+    && (u.mpu.isSome == (idxFrom 0 (baseAttrs c u)).any fun (_, o) => o.code == 15)
+
 /-- `u` is a valid UPDATE for codec `c`, `cs` refers to it and the result is a frame of legal size:
     the property's quantifier -/
-def wfCase (c : Codec) (u : CUpdate) (cs : List Corr) : Bool :=
-  let legacyOk :=
-    (u.wd.isEmpty && u.nlri.isEmpty) ||
-      (match negotiated c FAM_IPV4 with
-       | some ap => u.wd.all (pfxOk 32 ap) && u.nlri.all (pfxOk 32 ap)
-       | none => false)
-  let mprOk := match u.mpr with
-    | none => true
-    | some m =>
-        m.safi ≥ 1 && m.safi ≤ 2 &&
-        (match famBits m.afi, negotiated c (famKey m.afi m.safi) with
-         | some bits, some ap =>
-             m.nlri.all (pfxOk bits ap) && !m.nlri.isEmpty
-               && (if m.afi = 2 then m.nh.length == 16 || m.nh.length == 32 else m.nh.length == 4 || m.nh.length == 16)
-         | _, _ => false)
-  let mpuOk := match u.mpu with
-    | none => true
-    | some m =>
-        m.safi ≥ 1 && m.safi ≤ 2 &&
-        (match famBits m.afi, negotiated c (famKey m.afi m.safi) with
-         | some bits, some ap => m.nlri.all (pfxOk bits ap) && !m.nlri.isEmpty
-         | _, _ => false)
-  let announces := !u.nlri.isEmpty || u.mpr.isSome
-  legacyOk && mprOk && mpuOk
-    && u.attrs.all (cattrOk c.two) && distinctCodes (u.attrs.map (·.code))
-    && (!announces || (hasAttr u 1 && hasAttr u 2))
+def wfLegacy (c : Codec) (u : CUpdate) : Bool :=
+  (u.wd.isEmpty && u.nlri.isEmpty) ||
+    (match negotiated c FAM_IPV4 with
+     | some ap => u.wd.all (pfxOk 32 ap) && u.nlri.all (pfxOk 32 ap)
+     | none => false)
+
+def wfMpr (c : Codec) (u : CUpdate) : Bool :=
+  match u.mpr with
+  | none => true
+  | some m =>
+      m.safi ≥ 1 && m.safi ≤ 2 &&
+      (match famBits m.afi, negotiated c (famKey m.afi m.safi) with
+       | some bits, some ap =>
+           m.nlri.all (pfxOk bits ap) && !m.nlri.isEmpty
+             && (if m.afi = 2 then m.nh.length == 16 || m.nh.length == 32 else m.nh.length == 4 || m.nh.length == 16)
+       | _, _ => false)
+
+def wfMpu (c : Codec) (u : CUpdate) : Bool :=
+  match u.mpu with
+  | none => true
+  | some m =>
+      m.safi ≥ 1 && m.safi ≤ 2 &&
+      (match famBits m.afi, negotiated c (famKey m.afi m.safi) with
+       | some bits, some ap => m.nlri.all (pfxOk bits ap) && !m.nlri.isEmpty
+       | _, _ => false)
+
+def announcesU (u : CUpdate) : Bool := !u.nlri.isEmpty || u.mpr.isSome
+
+/-- attributes of `u`: known types with their class's flags and a valid value, each type once;
+    ORIGIN / AS_PATH / NEXT_HOP where required; something is announced or withdrawn -/
+def wfAttrs (c : Codec) (u : CUpdate) : Bool :=
+  u.attrs.all (cattrOk c.two) && distinctCodes (u.attrs.map (·.code))
+    && (!announcesU u || (hasAttr u 1 && hasAttr u 2))
     && (u.nlri.isEmpty || hasAttr u 3)
-    && (announces || !u.wd.isEmpty || u.mpu.isSome)
-    && cs.all (corrIdxOk (rcodes u).length)
+    && (announcesU u || !u.wd.isEmpty || u.mpu.isSome)
+
+def wfCorr (u : CUpdate) (cs : List Corr) : Bool :=
+  cs.all (corrIdxOk (rcodes u).length)
     && distinctCodes (cs.filterMap fun k => match k with | .unknown _ code _ => some code | _ => none)
-    && (render c u cs).length ≤ c.maxLen
-    && (blockItems c u cs).all (fun w => w.data.length < 65536)
-    && octetsOk u cs
-    && u.attrs.length ≤ 40 && u.wd.length ≤ 40 && u.nlri.length ≤ 40
+
+def wfBounds (u : CUpdate) : Bool :=
+  u.attrs.length ≤ 40 && u.wd.length ≤ 40 && u.nlri.length ≤ 40
     && (match u.mpr with | some m => m.nlri.length ≤ 40 | none => true)
     && (match u.mpu with | some m => m.nlri.length ≤ 40 | none => true)
+
+def wfCase (c : Codec) (u : CUpdate) (cs : List Corr) : Bool :=
+  wfLegacy c u && wfMpr c u && wfMpu c u && wfAttrs c u && wfCorr u cs
+    && decide ((render c u cs).length ≤ c.maxLen) && structOk c u cs && octetsOk u cs && wfBounds u
 
 /-! ### classification (from the attribute TYPE) of what is on the wire
 
@@ -250,8 +303,8 @@ def truncCls : List SItem → Nat → List Cls
 
 /-- the classes of attributes of `u` that a corruption removed altogether -/
 def omittedCls (c : Codec) (u : CUpdate) (cs : List Corr) (announces legacyNlri : Bool) : List Cls :=
-  ((effAttrs c u cs).take (baseAttrs c u).length).filterMap fun a =>
-    if a.present then none else some (goneCls announces legacyNlri a.code)
+  (idxFrom 0 (baseAttrs c u)).filterMap fun (i, o) =>
+    if (effAttr cs i o).present then none else some (goneCls announces legacyNlri o.code)
 
 /-! ### judging the observation -/
 
@@ -272,7 +325,7 @@ def allIn (want have_ : List PNlri) : Bool := want.all fun p => have_.contains p
 def believes (attrs : List Attr) (code : Nat) (d : Bytes) : Bool :=
   attrs.any fun a => a.code == code &&
     (match a.data with
-     | .val v => (d.length == 4 && v == be d) || (code == 1 && d == [v])
+     | .val v => if code == 1 then d == [v] else d.length == 4 && v == be d
      | .bin b => b == d
      | .opq b => b == d)
 
